@@ -24,6 +24,7 @@ def run(idx, rep, tier):
     simplex.r_maskpoint(idx, rep)
     simplex.r_planes(idx, rep)
     simplex.r_solverdispatch(idx, rep)
+    simplex.r_weightrole(idx, rep)
     buffers.r_compact(idx, rep, modules={J}, floor=3)
     loops.r_loop(idx, rep, [J], floor=4)
     clip.r_clipguard(idx, rep)
